@@ -128,13 +128,55 @@ def caps_of(kind, has_reset):
     raise ValueError(kind)
 
 
-def make_el(kind, k, mut, has_reset, caps=None, stop=None, stores=False):
+# flow values: a case may carry "vals", a list of codes; code c stands for POOL[c] in the real flow (equal codes: equal
+# values) and for the integer c in the model.  Results are decoded back to codes before any comparison.
+POOL = [None, 0, 7, (1, {"c": 1}), "x", 2.5]
+
+
+def _code_of(v):
+    for i, pv in enumerate(POOL):
+        if v is pv or (type(v) is type(pv) and v == pv):
+            return i
+    return v
+
+
+def flow_codes(case, start=0, n=None):
+    """the flow as the model sees it"""
+    n = case["n"] if n is None else n
+    if case.get("vals") is not None:
+        return [case["vals"][(start + i) % len(case["vals"])] for i in range(n)]
+    return list(range(start, start + n))
+
+
+def py_flow(case, codes):
+    return [POOL[c] for c in codes] if case.get("vals") is not None else list(codes)
+
+
+class _Live(list):
+    """the element's own state handed out as a result (not a copy)"""
+
+
+def enc(case, r):
+    """a result at the moment it is yielded, as the model writes it (values -> codes; a live state -> a snapshot)"""
+    if type(r) is _Live:
+        r = [0] + list(r)
+    if case.get("vals") is not None and isinstance(r, list):
+        return [r[0]] + [_code_of(v) for v in r[1:]]
+    return r
+
+
+def make_el(kind, k, mut, has_reset, caps=None, stop=None, stores=False, kpar=False, names=False, readj=None,
+            alias=False):
     """An element whose fill appends to a list v; request/compute/run yield [j]+v for j<k and then
     (mut) append -1 to v; kind 'map': run yields [x+100] per value and keeps no state.
     stop: fill raises LenaStopFill for every value >= stop (after storing it if `stores`).
+    kpar: the number of results depends on the state (k while an odd number of values is held, none otherwise).
+    names: the methods are called put / get / clear (and fill / request / reset are decoys that must not be used).
+    readj: run reads at most readj values of the flow it is given (a Run element that breaks the flow).
+    alias: the one result is the live state itself and reset empties it in place.
     request/compute/run are generator functions: their bodies run when they are iterated."""
     e = _E()
-    e.v = []
+    e.v = _Live() if alias else []
 
     def fill(x):
         if stop is not None and x >= stop:
@@ -145,7 +187,11 @@ def make_el(kind, k, mut, has_reset, caps=None, stop=None, stores=False):
         e.v.append(x)
 
     def gen():
-        for j in range(k):
+        if alias:
+            yield e.v
+            return
+        kk = (k if len(e.v) % 2 == 1 else 0) if kpar else k
+        for j in range(kk):
             yield [j] + list(e.v)
         if mut:
             e.v.append(-1)
@@ -154,39 +200,66 @@ def make_el(kind, k, mut, has_reset, caps=None, stop=None, stores=False):
         yield [-7]
 
     def reset():
-        e.v = []
+        if alias:
+            del e.v[:]
+        else:
+            e.v = []
 
     def run(flow):
         if kind == "map":
             for x in flow:
                 yield [x + 100]
         else:
-            for x in flow:
-                e.v.append(x)
+            if readj is None:
+                for x in flow:
+                    e.v.append(x)
+            elif readj > 0:
+                cnt = 0
+                for x in flow:
+                    e.v.append(x)
+                    cnt += 1
+                    if cnt == readj:
+                        break
             for r in gen():
                 yield r
+
+    def decoy(*a):
+        raise AssertionError("a method with the default name was called although another name was given")
 
     c = caps if caps is not None else caps_of(kind, has_reset)
     if c[0]:
         e.run = run
     if c[1]:
-        e.fill = fill
+        setattr(e, "put" if names else "fill", fill)
     if c[2]:
-        e.request = gen
+        setattr(e, "get" if names else "request", gen)
     if c[3]:
         e.compute = other if c[2] else gen
     if c[4]:
-        e.reset = reset
+        setattr(e, "clear" if names else "reset", reset)
+    if names:
+        # `fill`/`request` with the default names exist, too, and must not be used; `reset` with the default name
+        # exists only if the element is not meant to have one (so an adapter that ignores reset_name resets wrongly)
+        if c[1]:
+            e.fill = decoy
+        if c[2]:
+            e.request = decoy
+        if not c[4]:
+            e.reset = decoy
     return e
 
 
 def _kw(case):
     buf = case.get("buf", "bi")
-    kw = {"bufsize": case["bufsize"], "reset": case["reset"], "yield_on_remainder": case["yor"]}
+    kw = {"bufsize": float(case["bufsize"]) if case.get("fbuf") else case["bufsize"], "reset": case["reset"],
+          "yield_on_remainder": case["yor"]}
+    truthy = "yes" if case.get("fbuf") else True       # any truthy object is documented to do
     if buf in ("bi", "both"):
-        kw["buffer_input"] = True
+        kw["buffer_input"] = truthy
     if buf in ("bo", "both"):
-        kw["buffer_output"] = True
+        kw["buffer_output"] = truthy
+    if case.get("names"):
+        kw.update(fill="put", request="get", reset_name="clear")
     return kw
 
 
@@ -270,7 +343,7 @@ def make_adapter(case):
     import lena.core
     kind = case["kind"]
     if kind == "frseq":
-        el = make_el("fr", case["k"], case["mut"], True)
+        el = make_el("fr", case["k"], case["mut"], True, kpar=bool(case.get("kpar")))
         args = []
         pre, post = _code(case.get("pre")), _code(case.get("post"))
         if pre:
@@ -279,18 +352,20 @@ def make_adapter(case):
         if post:
             args.append((lambda r: r + [99]) if post == 1 else _PostMulti())
         return lena.core.FillRequestSeq(*args, **_kw(case))
-    el = make_el(kind, case["k"], case["mut"], case["hr"], stop=case.get("stop"), stores=bool(case.get("stores")))
+    el = make_el(kind, case["k"], case["mut"], case["hr"], stop=case.get("stop"), stores=bool(case.get("stores")),
+                 kpar=bool(case.get("kpar")), names=bool(case.get("names")), readj=case.get("j"),
+                 alias=bool(case.get("alias")))
     cls = _lazy_adapter_class() if case.get("ev") == "request" else lena.core.FillRequest
     return cls(el, **_kw(case))
 
 
 def _ops_of(case):
     """[x | None]: None = request; bit j of mask: a request before fill j; a closing request always."""
-    ops = []
+    ops, flow = [], flow_codes(case)
     for j in range(case["n"]):
         if (case["mask"] >> j) & 1:
             ops.append(None)
-        ops.append(j)
+        ops.append(flow[j])
     ops.append(None)
     return ops
 
@@ -468,14 +543,40 @@ def _leaves(o, cap=10 ** 6):
     return n
 
 
+class _SibCount(object):
+    """a fill/compute sibling branch of Split: counts what it is filled with"""
+
+    def __init__(self):
+        self.n = 0
+
+    def fill(self, x):
+        self.n += 1
+
+    def compute(self):
+        yield ("B", self.n)
+
+
+def _init_arg(v):
+    """init cases carry reset / buffer flags as JSON: null, true, false, or {"obj": 0|1|"yes"|...} for a non-bool"""
+    return v["obj"] if isinstance(v, dict) else v
+
+
 def _run_impl(case):
     import lena.core
     op = case["op"]
     if op == "init":
         el = make_el("x", 1, False, False, caps=case["caps"])
+        if case.get("run_attr"):
+            el.run = 5          # an attribute `run` that is not callable: not a Run element
+        bufsize = case["bufsize"]
+        if case.get("frac"):
+            bufsize = bufsize + 0.5
+        elif case.get("fbuf"):
+            bufsize = float(bufsize)
         try:
-            fr = lena.core.FillRequest(el, bufsize=case["bufsize"], reset=case["reset"], buffer_input=case["bi"],
-                                       buffer_output=case["bo"], yield_on_remainder=case["yor"])
+            fr = lena.core.FillRequest(el, bufsize=bufsize, reset=_init_arg(case["reset"]),
+                                       buffer_input=_init_arg(case["bi"]), buffer_output=_init_arg(case["bo"]),
+                                       yield_on_remainder=case["yor"])
         except Exception as e:
             return {"e": exc_name(e)}
         return {"fill": fr.fill is not None, "request": fr.request is not None, "reset": fr.reset is not None}
@@ -483,7 +584,10 @@ def _run_impl(case):
         fr = make_adapter(case)
     except Exception as e:
         return {"e": exc_name(e), "phase": "init"}
-    flow = list(range(case["n"]))
+    codes = flow_codes(case)
+    flow = py_flow(case, codes)
+    codes2 = flow_codes(case, case["n"], case["n2"]) if case.get("n2") is not None else None
+    flow2 = py_flow(case, codes2) if codes2 is not None else None
     try:
         # a second adapter of the same class around another element object, left with an unrequested overflow:
         # adapters must not share state (visible inside this one case, so that a replay shows it)
@@ -493,12 +597,12 @@ def _run_impl(case):
                 decoy.fill(x)
     except Exception as e:
         return {"e": exc_name(e), "phase": "second adapter"}
-    if op == "run":
+    if op in ("run", "runp"):
         try:
-            res = {"r": list(fr.run(iter(flow)))}
-            if case.get("n2") is not None:
+            res = {"r": [enc(case, r) for r in fr.run(iter(flow))]}
+            if flow2 is not None:
                 # the same adapter (and element object) runs a second flow
-                res["r2"] = list(fr.run(iter(range(case["n"], case["n"] + case["n2"]))))
+                res["r2"] = [enc(case, r) for r in fr.run(iter(flow2))]
             return res
         except Exception as e:
             return {"e": exc_name(e), "phase": "run"}
@@ -507,16 +611,19 @@ def _run_impl(case):
         try:
             for o in _ops_of(case):
                 if o is None:
-                    out = list(fr.request())
+                    out = [enc(case, r) for r in fr.request()]
                     trace.append([out] + _sizes(fr))
                 else:
-                    fr.fill(o)
+                    fr.fill(py_flow(case, [o])[0])
                     trace.append([None] + _sizes(fr))
         except Exception as e:
             return {"e": exc_name(e), "phase": "ops", "t": trace}
         res = {"t": trace}
         try:
-            res["run"] = list(make_adapter(case).run(iter(flow)))
+            res["run"] = [enc(case, r) for r in make_adapter(case).run(iter(flow))]
+            if flow2 is not None:
+                # the adapter that was driven by fill/request now runs a flow
+                res["r2"] = [enc(case, r) for r in fr.run(iter(flow2))]
         except Exception as e:
             res["run"] = {"e": exc_name(e)}
         return res
@@ -553,18 +660,48 @@ def _run_impl(case):
         return {"r": out, "raised": raised}
     if op == "split":
         form = case["form"]
+        branches = None
         if form == "el":
             branch = fr
         elif form == "tuple":
             branch = (fr,)
+        elif form == "seq3":
+            # elements before / after the adapter in the branch: Split builds a FillRequestSeq around them
+            parts = []
+            if case.get("apre"):
+                parts.append((lambda x: x + 10) if case["apre"] == 1 else _PreMulti())
+            parts.append(fr)
+            if case.get("apost"):
+                parts.append((lambda r: r + [99]) if case["apost"] == 1 else _PostMulti())
+            branch = tuple(parts)
+        elif form == "sib":
+            # sibling branches before and after; with copy_buf the first one works on its own deep copy of the block
+            # and may change it
+            cb = bool(case.get("cb", True))
+
+            def sib_a(x):
+                if cb and isinstance(x, tuple) and isinstance(x[1], dict):
+                    x[1]["c"] = 99
+                return ("A", 0)
+
+            branch = fr
+            branches = [lena.core.Sequence(sib_a), fr, _SibCount()]
         else:
             branch = lena.core.FillRequestSeq(fr, bufsize=1, reset=False, buffer_input=True)
         try:
-            s = lena.core.Split([branch], bufsize=case["m"])
+            if branches is not None:
+                s = lena.core.Split(branches, bufsize=case["m"], copy_buf=bool(case.get("cb", True)))
+            else:
+                s = lena.core.Split([branch], bufsize=case["m"])
         except Exception as e:
             return {"e": exc_name(e), "phase": "split-init"}
+        mine = (lambda r: isinstance(r, list)) if branches is not None else (lambda r: True)
         try:
-            return {"r": list(s.run(iter(flow))), "types": list(s._seq_types)}
+            res = {"r": [enc(case, r) for r in s.run(iter(flow)) if mine(r)], "types": list(s._seq_types)}
+            if flow2 is not None:
+                # the same Split object (and adapter) runs a second flow
+                res["r2"] = [enc(case, r) for r in s.run(iter(flow2)) if mine(r)]
+            return res
         except Exception as e:
             return {"e": exc_name(e), "phase": "run"}
     raise ValueError(op)
@@ -580,39 +717,62 @@ def _cfg_req(case):
             "bi": buf in ("bi", "both"), "bo": buf in ("bo", "both"), "yor": case["yor"],
             "el": {"k": case["k"], "mut": case["mut"], "map": kind == "map",
                    "pre": _code(case.get("pre")), "post": _code(case.get("post")),
-                   "stop": case.get("stop"), "stores": bool(case.get("stores"))}}
+                   "stop": case.get("stop"), "stores": bool(case.get("stores")), "kpar": bool(case.get("kpar"))}}
+
+
+def init_model_args(case):
+    """the arguments of an init case as the model takes them: truthiness of non-bool flags, int(bufsize) + frac,
+    a non-callable `run` attribute is no `run`"""
+    def ob(v):      # Optional[bool]
+        v = _init_arg(v)
+        return None if v is None else bool(v)
+    caps = list(case["caps"])
+    if case.get("run_attr"):
+        caps[0] = False
+    return {"caps": caps, "bufsize": case["bufsize"], "frac": bool(case.get("frac")), "reset": ob(case["reset"]),
+            "bi": bool(_init_arg(case["bi"])), "bo": bool(_init_arg(case["bo"])), "yor": case["yor"]}
 
 
 def model_requests(case):
     op = case["op"]
     if op == "init":
-        return [{"op": "init", "caps": case["caps"], "bufsize": case["bufsize"], "reset": case["reset"],
-                 "bi": bool(case["bi"]), "bo": bool(case["bo"]), "yor": case["yor"]}]
+        return [dict(init_model_args(case), op="init")]
     r = _cfg_req(case)
     r["op"] = op
-    if op == "run":
-        r["xs"] = list(range(case["n"]))
-        if case.get("n2") is not None:
-            r["xs2"] = list(range(case["n"], case["n"] + case["n2"]))
+    codes = flow_codes(case)
+    codes2 = flow_codes(case, case["n"], case["n2"]) if case.get("n2") is not None else None
+    if op in ("run", "runp"):
+        r["xs"] = codes
+        if codes2 is not None:
+            r["xs2"] = codes2
+        if op == "runp":
+            r["j"] = case.get("j")
     elif op == "ops":
         r["ops"] = _ops_of(case)
+        if codes2 is not None:
+            r["xs2"] = codes2
     elif op == "split":
-        r["xs"] = list(range(case["n"]))
+        r["xs"] = codes
         r["m"] = case["m"]
+        if codes2 is not None:
+            r["xs2"] = codes2
+        if case.get("form") == "seq3":
+            r["apre"], r["apost"] = case.get("apre", 0), case.get("apost", 0)
     elif op == "opsx":
         r["ops"] = case["ops"]
         r["ev"] = case.get("ev", "call")
     elif op == "splitx":
-        r["xs"] = list(range(case["n"]))
+        r["xs"] = codes
         r["m"] = case["m"]
     elif op == "runx":
-        r["xs"] = list(range(case["n"]))
+        r["xs"] = codes
     return [r]
 
 
 def compare(case, res, replies):
     """the model's prediction against the real code — and, on the same case, the specification side of the theorems
-    (what the driver evaluates besides the transcribed functions) against the real code / a Python reference"""
+    (what the driver evaluates besides the transcribed functions) against the real code / a Python reference.
+    The specification-side fields are REQUIRED: a reply without them is a harness error (KeyError), not a pass."""
     m = replies[0]
     if "err" in m:
         return f"model driver error: {m['err']}"
@@ -621,7 +781,7 @@ def compare(case, res, replies):
     if "__timeout__" in res or "hang" in res:
         return f"impl did not return (watchdog), model {m}"
     op = case["op"]
-    if op == "init" and m.get("contract") is not None and m["contract"] != (not ref_init(case)):
+    if op == "init" and m["contract"] != (not ref_init(case)):
         return f"initContract of the model says {m['contract']}, documented contract (Python reference) {sorted(ref_init(case))}"
     if "e" in res or "e" in m:
         if res.get("e") != m.get("e"):
@@ -637,9 +797,14 @@ def compare(case, res, replies):
                  "invOps (invariant along the history, state after request)",
                  "specification of the closed history (emitAll over segments / runFillCompute on the filled values) = "
                  "what the requests yielded", "the recording element accounts for exactly the filled values")
-        for ok, name in zip(m.get("chk", []), names):
+        chk = m["chk"]
+        if len(chk) != len(names):
+            raise KeyError(f"driver reply carries {len(chk)} checks, {len(names)} expected")
+        for ok, name in zip(chk, names):
             if ok is not True:
                 return f"specification side of the model fails on a history the real code agrees with: {name}"
+        if "r2" in res and res["r2"] != m["r2"]:
+            return f"run after the history on the same adapter: impl {res['r2']} vs model {m['r2']}"
         return None
     if op == "opsx":
         if res["t"] != m["t"]:
@@ -647,7 +812,10 @@ def compare(case, res, replies):
         names = ("bufKind: what _buffer_out holds (results only / generator objects only)",
                  "the next request() starts with the kept results / with iterReq over the kept generator objects",
                  "the counters equal those of the history without its reset() calls")
-        for ok, name in zip(m.get("chk", []), names):
+        chk = m["chk"]
+        if len(chk) != len(names):
+            raise KeyError(f"driver reply carries {len(chk)} checks, {len(names)} expected")
+        for ok, name in zip(chk, names):
             if ok is not True:
                 return f"specification side of the extended model fails on a history the real code agrees with: {name}"
         return None
@@ -655,19 +823,24 @@ def compare(case, res, replies):
         if res["r"] != m["r"] or res["raised"] != m["raised"]:
             return f"impl {res['r']} raised={res['raised']} vs model {m['r']} raised={m['raised']}"
         return None
+    if op == "runp":
+        if m["spin"]:
+            return f"the model's _run_run loop does not end on this case (model {m}); impl returned {res['r']}"
+        return None if res["r"] == m["r"] else f"impl {res['r']} vs model {m['r']}"
     if res["r"] != m["r"]:
         return f"impl {res['r']} vs model {m['r']}"
-    if op == "run" and m.get("spec", m["r"]) != res["r"]:
-        # the right-hand side of theorem run_blocks, evaluated by the driver
-        return f"impl {res['r']} vs block specification of the model {m['spec']}"
-    if op == "run" and case["kind"] == "both" and m.get("rc") is not True:
-        return "RunConsistent fails for the test element that has run and fill/request (hypothesis of schedule_independent)"
-    if op == "run" and case["kind"] == "frseq" and m.get("seqspec", m["r"]) != res["r"]:
-        return f"impl {res['r']} vs rhs of seq_run_blocks {m['seqspec']}"
-    if op == "run" and "r2" in res:
-        if res["r2"] != m.get("r2"):
-            return f"second run on the same adapter: impl {res['r2']} vs model {m.get('r2')}"
-        if m.get("spec2", m["r2"]) != res["r2"]:
+    if op == "run":
+        if m["spec"] != res["r"]:
+            # the right-hand side of theorem run_blocks, evaluated by the driver
+            return f"impl {res['r']} vs block specification of the model {m['spec']}"
+        if case["kind"] == "both" and m["rc"] is not True:
+            return "RunConsistent fails for the test element that has run and fill/request (hypothesis of schedule_independent)"
+        if case["kind"] == "frseq" and m["seqspec"] != res["r"]:
+            return f"impl {res['r']} vs rhs of seq_run_blocks {m['seqspec']}"
+    if "r2" in res:
+        if res["r2"] != m["r2"]:
+            return f"second run on the same object: impl {res['r2']} vs model {m['r2']}"
+        if op == "run" and m["spec2"] != res["r2"]:
             return f"second run: impl {res['r2']} vs block specification from the state left {m['spec2']}"
     return None
 
@@ -676,20 +849,22 @@ def compare(case, res, replies):
 # the property's own statement, computed without lena and without the Lean model
 
 def ref_init(case):
-    """Documented constructor contract (docstring of FillRequest.__init__)."""
+    """Documented constructor contract (docstring of FillRequest.__init__), on the Python arguments of the case."""
     run, fill, request, compute, reset_m = case["caps"]
-    reset, yor = case["reset"], case["yor"]
+    if case.get("run_attr"):
+        run = False            # "a callable method run": an attribute that cannot be called is none
+    reset, yor = _init_arg(case["reset"]), case["yor"]
     errs = set()
     if reset and not reset_m:
         errs.add("LenaTypeError")
-    if not yor and int(bool(case["bi"])) + int(bool(case["bo"])) != 1:
+    if not yor and int(bool(_init_arg(case["bi"]))) + int(bool(_init_arg(case["bo"]))) != 1:
         errs.add("LenaValueError")
     if fill and reset is None:
         errs.add("LenaTypeError")
     if not run and not (fill and (request or compute)):
         errs.add("LenaTypeError")
-    if case["bufsize"] < 1:
-        errs.add("LenaValueError")
+    if case["bufsize"] < 1 or case.get("frac"):
+        errs.add("LenaValueError")     # "bufsize must be a natural number"
     return errs
 
 
@@ -708,8 +883,11 @@ def ref_run(case, flow):
         if kind == "map":
             out.extend([x + 100] for x in block)
         else:
+            if case.get("j") is not None:
+                block = block[:case["j"]]       # a Run element that reads only the first j values of its block
             v = v + [y for x in block for y in pre_ref(pre, x)]
-            out.extend(r for j in range(k) for r in post_ref(post, [j] + v))
+            kk = (k if len(v) % 2 == 1 else 0) if case.get("kpar") else k
+            out.extend(r for j in range(kk) for r in post_ref(post, [j] + v))
             if mut:
                 v = v + [-1]
         if reset:
@@ -735,8 +913,9 @@ def oracle(case, res):
     if "e" in res:
         return f"unexpected exception {res}"
     n, L = case["bufsize"], case["n"]
-    flow = list(range(L))
-    if op == "run":
+    flow = flow_codes(case)
+    flow2 = flow_codes(case, L, case["n2"]) if case.get("n2") is not None else None
+    if op in ("run", "runp"):
         ref = ref_run(case, flow)
         if res["r"] != ref:
             return f"run yields {res['r']}, block-by-block reference {ref}"
@@ -747,14 +926,14 @@ def oracle(case, res):
             n2, k = case["n2"], case["k"]
             nblocks = n2 // n + (1 if case["yor"] and n2 % n else 0)
             expect = (n * (n2 // n) + (n2 % n if case["yor"] else 0)) if case["kind"] == "map" else k * nblocks
-            if len(res["r2"]) != expect:
+            if len(res["r2"]) != expect and not case.get("kpar"):
                 return (f"the same adapter run on a second flow of {n2} values (bufsize {n}, yield_on_remainder "
                         f"{case['yor']}) yields {len(res['r2'])} results {res['r2']}, its blocks give {expect}")
         if "r2" in res and L % n == 0 and not case["mut"]:
             # the first flow ended at a block boundary: the blocks of the second run are the following blocks
-            both = ref_run(case, list(range(L + case["n2"])))
+            both = ref_run(case, flow + flow2)
             if res["r"] + res["r2"] != both:
-                return (f"the same adapter run on {flow} and then on {list(range(L, L + case['n2']))} yields "
+                return (f"the same adapter run on {flow} and then on {flow2} yields "
                         f"{res['r']} + {res['r2']}, block-by-block reference for the values in turn {both}")
         return None
     if op == "ops":
@@ -763,6 +942,15 @@ def oracle(case, res):
         if res.get("types") != ["fill_request"]:
             return f"Split classified the branch as {res.get('types')}"
         outs = res["r"]
+        if case.get("form") == "seq3":
+            # (f, FillRequest(...), g): the adapter is filled with what f makes of the values; its blocks are blocks of
+            # those; g transforms its results
+            inner = [y for x in flow for y in pre_ref(case.get("apre", 0), x)]
+            ref = ref_run(dict(case, post=case.get("apost", 0)), inner)
+            if not case["yor"] and outs != ref:
+                return (f"Split(bufsize={case['m']}) around (f, FillRequest(bufsize={n}), g) yields {outs}, the blocks of "
+                        f"the transformed values {inner} give {ref}")
+            return None
         if not case["yor"]:
             ref = ref_run(case, flow)
             if outs != ref:
@@ -770,6 +958,12 @@ def oracle(case, res):
                         f"run on the whole flow would yield {ref}")
         if L == 0 and outs:
             return f"Split around FillRequest yields {outs} for an empty flow"
+        if flow2 is not None and not case["yor"] and case.get("form") != "seq3":
+            # the same Split object runs a second flow: the adapter goes on with the following blocks
+            both = ref_run(case, flow + flow2)
+            if outs + res["r2"] != both:
+                return (f"the same Split run on {flow} and then on {flow2} yields {outs} + {res['r2']}, "
+                        f"the blocks of the values in turn give {both}")
         return _accounted(case, outs, flow, closed=True, pending=None)
     if op == "opsx":
         return _oracle_opsx(case, res)
@@ -864,7 +1058,7 @@ def _oracle_opsx(case, res):
 
 def _accounted(case, outs, flow, closed, pending):
     """every value is in exactly one emitted block (reset on) / in the element exactly once (reset off)"""
-    if case["kind"] == "map" or case["mut"] or case["k"] < 1:
+    if case["kind"] == "map" or case["mut"] or case["k"] < 1 or case.get("kpar"):
         return None
     n, L = case["bufsize"], len(flow)
     emitted_n = L if case["yor"] else (L // n) * n
@@ -901,7 +1095,7 @@ def _oracle_ops(case, res, flow):
                 return f"_buffer_in holds {lin} values after {since} fills since the last request (trace {trace})"
             if lout > k * ((pend + since) // n):
                 return f"_buffer_out holds {lout} results after {since} fills since the last request (trace {trace})"
-            if cnt + lin != pend + since - n * (lout // k if k else 0):
+            if not case.get("kpar") and cnt + lin != pend + since - n * (lout // k if k else 0):
                 return f"values not accounted: _n_count {cnt} + buffered {lin} after {pend}+{since} values (trace {trace})"
     if not yor:
         ref = ref_run(case, flow)
@@ -910,6 +1104,13 @@ def _oracle_ops(case, res, flow):
                     f" + closing; block reference for the whole flow {ref}")
         if res["run"] != outs:
             return f"concatenated request() results {outs} differ from run on the whole flow {res['run']}"
+    if "r2" in res and not case.get("kpar") and case["kind"] != "map":
+        # the adapter that was driven by fill/request then runs a flow: that flow is cut into its own blocks
+        n2 = case["n2"]
+        expect = k * (n2 // n + (1 if yor and n2 % n else 0))
+        if len(res["r2"]) != expect:
+            return (f"after the history the same adapter runs a flow of {n2} values (bufsize {n}, yield_on_remainder {yor}) "
+                    f"and yields {len(res['r2'])} results {res['r2']}; its blocks give {expect}")
     return _accounted(case, outs, flow, True, trace[-1][1] + trace[-1][2])
 
 
@@ -946,6 +1147,79 @@ def _histories(maxlen):
 _STOPS = ((None, False), (2, False), (2, True), (4, False))
 
 
+def _random_mask(rng, L, dens):
+    mask = 0
+    for j in range(L):
+        if rng.random() < dens:
+            mask |= 1 << j
+    return mask
+
+
+def _long_cases(rng, count):
+    """flows longer than any constant a buffer might be given: many values between two requests"""
+    for _ in range(count):
+        kind = rng.choice(("fc", "fr", "both"))
+        hr, reset = rng.choice(((True, True), (True, False)))
+        c = _base(kind, 1, False, hr, rng.randint(1, 4), rng.choice(("bi", "bo")), reset, rng.random() < 0.2)
+        L = rng.randint(20, 48)
+        if rng.random() < 0.5:
+            c.update(op="ops", n=L, mask=_random_mask(rng, L, rng.choice((0.0, 0.03))))
+        else:
+            c.update(op="split", form=rng.choice(("el", "tuple", "frseq")), m=rng.choice((18, 25, 40, 1000, None)), n=L)
+        yield c
+
+
+def _dimension_cases(rng, count):
+    """the dimensions the enumerations below keep fixed, combined at random: flow values (None, equal values, pairs,
+    strings, floats), number of results depending on the state, method names given by keyword, a float bufsize and
+    truthy non-bool flags, results that are the live state, a second flow on the same object, elements around the adapter
+    inside the Split branch, sibling branches and copy_buf"""
+    for _ in range(count):
+        op = rng.choice(("run", "ops", "split", "split"))
+        kind = rng.choice(KINDS_RUN if op == "run" else (("fr", "fc") if op == "split" else KINDS_FILL))
+        k = rng.choice((1, 1, 2))
+        mut = rng.random() < 0.2 and kind != "map"
+        if kind == "map":
+            k = 1
+        if op == "split":
+            hr, reset = True, rng.random() < 0.5
+        else:
+            hr, reset = rng.choice(_reset_opts(kind))
+        yor = rng.random() < 0.3
+        buf = rng.choice(("bi", "bo")) if not yor or op != "run" else rng.choice(("bi", "bo", "none", "both"))
+        c = _base(kind, k, mut, hr, rng.randint(1, 5), buf, reset, yor)
+        L = rng.randint(0, 12)
+        c.update(op=op, n=L)
+        arithmetic = kind in ("map", "frseq")
+        if kind == "frseq":
+            c.update(pre=rng.choice((0, 1, 2)), post=rng.choice((0, 1, 2)))
+        if op == "ops":
+            c["mask"] = _random_mask(rng, L, rng.choice((0.1, 0.3, 0.6)))
+        if op == "split":
+            c["m"] = rng.choice(list(range(1, 10)) + [1000, None])
+            c["form"] = rng.choice(("el", "tuple", "frseq", "seq3", "sib", "sib"))
+            if c["form"] == "seq3":
+                c.update(apre=rng.choice((0, 1, 2)), apost=rng.choice((0, 1, 2)))
+                arithmetic = True
+            if c["form"] == "sib":
+                c["cb"] = rng.random() < 0.6
+        if not arithmetic and rng.random() < 0.45:
+            c["vals"] = [rng.randrange(len(POOL)) for _ in range(max(1, L + 8))]
+        if not mut and kind != "map" and rng.random() < 0.35:
+            c["kpar"] = True
+        if kind != "frseq" and rng.random() < 0.3:
+            c["names"] = True
+        if rng.random() < 0.15:
+            c["fbuf"] = True
+        if (k == 1 and not mut and not c.get("kpar") and kind not in ("map", "frseq") and rng.random() < 0.2
+                and not (buf in ("bo", "both", "none") and op in ("ops", "split"))):
+            # results that are the element's live state; not with buffer_output under fill/request (ASSUMPTIONS)
+            c["alias"] = True
+        if rng.random() < 0.3:
+            c["n2"] = rng.randint(0, 7)
+        yield c
+
+
 def gen_cases(ctx):
     """A generator (memory-lean; common.py may take only a prefix of the thorough stream when the anchored source
     changed, so the cheap, varied groups come first and the big enumeration of request schedules goes by flow length).
@@ -971,6 +1245,34 @@ def gen_cases(ctx):
                         for bs in (-1, 0, 1, 3):
                             yield {"op": "init", "caps": list(caps), "bufsize": bs, "reset": reset, "bi": bi,
                                    "bo": bo, "yor": yor}
+    # --- __init__: arguments that are not bools / ints ----------------------------------------
+    nb = ({"obj": 0}, {"obj": 1}, {"obj": "yes"}, {"obj": []})
+    for caps in itertools.product((False, True), repeat=5):
+        for extra in ({"frac": True}, {"fbuf": True}, {"run_attr": True}):
+            for reset in (None, True, False):
+                for yor in (False, True):
+                    yield dict({"op": "init", "caps": list(caps), "bufsize": 2, "reset": reset, "bi": True, "bo": None,
+                                "yor": yor}, **extra)
+        for reset in nb:
+            for bi, bo in ((nb[1], nb[0]), (nb[2], None), (nb[3], nb[2]), (nb[0], nb[3])):
+                yield {"op": "init", "caps": list(caps), "bufsize": 3, "reset": reset, "bi": bi, "bo": bo, "yor": False}
+    # --- long flows first (buffers larger than any constant in the code), then the other dimensions -----------
+    for c in _long_cases(rng, 500 if thorough else 250):
+        yield c
+    for c in _dimension_cases(rng, 60000 if thorough else 9000):
+        yield c
+    # --- a Run element that does not read its whole block ------------------------------------------
+    for j in (0, 1, 2, 3, None):
+        for mut in (False, True):
+            for hr, reset in _reset_opts("run"):
+                for n in range(1, 5):
+                    for yor, buf in ((False, "bi"), (False, "bo"), (True, "none")):
+                        for L in range(0, 9):
+                            if not thorough and (mut or (L + n) % 2):
+                                continue
+                            c = _base("run", 1, mut, hr, n, buf, reset, yor)
+                            c.update(op="runp", n=L, j=j)
+                            yield c
     # --- run --------------------------------------------------------------------------------
     for kind in KINDS_RUN:
         for k in (1, 2):
